@@ -39,6 +39,39 @@ struct FileSpec {
     missing: bool,
 }
 
+#[derive(Clone, Debug, Default)]
+struct OutOpts {
+    compact: bool,
+    raw: bool,
+    join: bool,
+    raw0: bool,
+    tab: bool,
+    indent: Option<usize>,
+    sort: bool,
+}
+
+impl OutOpts {
+    /// the printed form of one output, as the manual describes the options: -r, -j and --raw-output0 print
+    /// top-level strings as they are; -c wins over --tab, --tab over --indent; -S sorts keys; every output is
+    /// followed by NUL with --raw-output0, by nothing with -j, by a line break otherwise
+    fn render(&self, v: &MVal) -> Vec<u8> {
+        let mut b = Vec::new();
+        match v {
+            MVal::TStr(s) | MVal::BStr(s) if self.raw || self.join || self.raw0 => b.extend(s),
+            _ => {
+                let indent = if self.compact { None } else if self.tab { Some("\t".to_string()) } else { Some(" ".repeat(self.indent.unwrap_or(2))) };
+                let pp = jaq_json::write::Pp { indent, sort_keys: self.sort, sep_space: !self.compact, styles: Default::default() };
+                jaq_json::write::write(&mut b, &pp, 0, &v.to_val()).unwrap();
+            }
+        }
+        b.extend(if self.raw0 { &b"\0"[..] } else if self.join { &b""[..] } else { &b"\n"[..] });
+        b
+    }
+    fn any(&self) -> bool {
+        self.compact || self.raw || self.join || self.raw0 || self.tab || self.indent.is_some() || self.sort
+    }
+}
+
 #[derive(Clone, Debug)]
 struct Scenario {
     filter: String,
@@ -47,9 +80,8 @@ struct Scenario {
     null_input: bool,
     slurp: bool,
     exit_status: bool,
-    /// output mode: 0 pretty, 1 -c, 2 -rc, 3 -jc, 4 --raw-output0 -c, 5 --tab, 6 --indent n, 7 -cS
-    mode: usize,
-    indent: usize,
+    /// output options, any subset: -c, -r, -j, --raw-output0, --tab, --indent n, -S
+    out: OutOpts,
     /// spelling variants of the options
     clustered: bool,
     opts_after_filter: bool,
@@ -83,8 +115,19 @@ fn gen_scenario(src: &mut Src) -> Scenario {
         null_input: src.chance(60),
         slurp: src.chance(40),
         exit_status: src.chance(90),
-        mode: src.below(8),
-        indent: src.below(5),
+        out: {
+            let raw0 = src.chance(40);
+            OutOpts {
+                compact: src.chance(128),
+                // (-r together with --raw-output0 would depend on the order of the two options: not generated)
+                raw: !raw0 && src.chance(60),
+                join: src.chance(50),
+                raw0,
+                tab: src.chance(30),
+                indent: if src.chance(40) { Some(src.below(5)) } else { None },
+                sort: src.chance(50),
+            }
+        },
         clustered: src.bool(),
         opts_after_filter: src.bool(),
     }
@@ -259,21 +302,27 @@ fn cli_case(src: &mut Src, scratch_root: &std::path::Path) -> CaseResult {
     if sc.exit_status {
         short.push('e');
     }
-    match sc.mode {
-        1 => short.push('c'),
-        2 => short.push_str("rc"),
-        3 => short.push_str("jc"),
-        4 => {
-            short.push('c');
-            opts.push("--raw-output0".into());
-        }
-        5 => opts.push("--tab".into()),
-        6 => {
-            opts.push("--indent".into());
-            opts.push(sc.indent.to_string());
-        }
-        7 => short.push_str("cS"),
-        _ => {}
+    if sc.out.compact {
+        short.push('c');
+    }
+    if sc.out.raw {
+        short.push('r');
+    }
+    if sc.out.join {
+        short.push('j');
+    }
+    if sc.out.sort {
+        short.push('S');
+    }
+    if sc.out.raw0 {
+        opts.push("--raw-output0".into());
+    }
+    if sc.out.tab {
+        opts.push("--tab".into());
+    }
+    if let Some(n) = sc.out.indent {
+        opts.push("--indent".into());
+        opts.push(n.to_string());
     }
     if sc.clustered {
         if !short.is_empty() {
@@ -331,21 +380,11 @@ fn cli_case(src: &mut Src, scratch_root: &std::path::Path) -> CaseResult {
         return Err(CaseFail::new("cli-panic", out.err_str().chars().take(400).collect::<String>(), case()));
     }
     // stdout
-    let want_vals: Vec<MVal> = if sc.mode == 7 { exp.outputs.iter().map(sort_keys).collect() } else { exp.outputs.clone() };
-    let stdout_ok = match sc.mode {
-        1 | 7 => out.stdout == want_vals.iter().flat_map(|v| { let mut b = v.xjon(); b.push(b'\n'); b }).collect::<Vec<u8>>(),
-        2 => out.stdout == want_vals.iter().flat_map(|v| { let mut b = raw_or_json(v); b.push(b'\n'); b }).collect::<Vec<u8>>(),
-        3 => out.stdout == want_vals.iter().flat_map(|v| raw_or_json(v)).collect::<Vec<u8>>(),
-        4 => out.stdout == want_vals.iter().flat_map(|v| { let mut b = raw_or_json(v); b.push(0); b }).collect::<Vec<u8>>(),
-        _ => {
-            // pretty-printed: the values, re-read, are the outputs (C07 decides how they are printed)
-            let back: Result<Vec<Val>, _> = jaq_json::read::parse_many(&out.stdout).collect();
-            match back {
-                Ok(b) => b.len() == want_vals.len() && b.iter().zip(&want_vals).all(|(x, y)| MVal::from_val(x).same(y)) && (want_vals.is_empty() || out.stdout.ends_with(b"\n")),
-                Err(_) => false,
-            }
-        }
-    };
+    let want_vals: Vec<MVal> = exp.outputs.clone();
+    // exact bytes: each output rendered by the library's printer with the layout the options ask for
+    // (C07 decides the printer; here: which layout, which terminator, raw strings or not)
+    let want_bytes: Vec<u8> = want_vals.iter().flat_map(|v| sc.out.render(v)).collect();
+    let stdout_ok = out.stdout == want_bytes;
     if !stdout_ok {
         return Err(CaseFail::new("cli-stdout", format!("stdout is {:?}, expected the outputs [{}]", String::from_utf8_lossy(&out.stdout).chars().take(300).collect::<String>(), want_vals.iter().map(|v| v.show()).collect::<Vec<_>>().join(" ")), case()));
     }
@@ -358,7 +397,7 @@ fn cli_case(src: &mut Src, scratch_root: &std::path::Path) -> CaseResult {
     if !exp.stderr && !matches!(exp.status, 2 | 3 | 5) && !out.stderr.is_empty() && !sc.filter.contains("halt") {
         return Err(CaseFail::new("cli-unexpected-stderr", out.err_str().chars().take(300).collect::<String>(), case()));
     }
-    let interacting = (sc.null_input as usize) + (sc.slurp as usize) + (sc.exit_status as usize) + (sc.mode != 0) as usize >= 2;
+    let interacting = (sc.null_input as usize) + (sc.slurp as usize) + (sc.exit_status as usize) + sc.out.any() as usize >= 2;
     let accounting = sc.filter.contains("input") || sc.filter.contains("halt") || sc.filter.contains("error");
     let truncated = sc.files.iter().any(|f| f.garbled && !f.values.is_empty());
     let mut ok = CaseOk::new(interacting || accounting || truncated, fnv_str(&[&args.join(" "), &format!("{:?}", sc.files)]))
@@ -374,6 +413,91 @@ fn cli_case(src: &mut Src, scratch_root: &std::path::Path) -> CaseResult {
         ok = ok.desc(Some(json!({"command": case()["command"], "stdout": String::from_utf8_lossy(&out.stdout).chars().take(120).collect::<String>(), "status": out.status})));
     }
     Ok(ok)
+}
+
+// ---------------------------------------------------------------- which decoder reads an input
+
+const IN_EXTS: &[&str] = &["json", "txt", "yaml", "csv", "tsv", "dat"];
+const IN_OPTS: &[&[&str]] = &[&[], &["-R"], &["--raw-input"], &["--raw-input0"], &["--from", "json"], &["--from", "raw"], &["--from", "yaml"], &["--from", "csv"]];
+const IN_CONTENTS: &[&str] = &["1 2\n[3]\n", "\"x\"\n\"y z\"", "a,b\n1,2\n", "k: v\n", "1\u{0}2\u{0}", "", "true"];
+
+/// The decoder applied to an input is the one the input-format option names; without such an option, the
+/// one the file extension names; JSON otherwise (and always for standard input).
+fn input_format_case(i: u64, sample: bool, root: &std::path::Path) -> CaseResult {
+    let (ne, no, nc) = (IN_EXTS.len() as u64, IN_OPTS.len() as u64, IN_CONTENTS.len() as u64);
+    let (ext, opt, content, slurp, stdin) = (IN_EXTS[(i % ne) as usize], IN_OPTS[((i / ne) % no) as usize], IN_CONTENTS[((i / (ne * no)) % nc) as usize], (i / (ne * no * nc)) % 2 == 1, (i / (ne * no * nc * 2)) % 2 == 1);
+    let format = match opt {
+        [] if stdin => "json",
+        [] => match ext {
+            "json" | "yaml" | "csv" | "tsv" => ext,
+            _ => "json",
+        },
+        ["-R"] | ["--raw-input"] => "raw",
+        ["--raw-input0"] => "raw0",
+        [_, f] => f,
+        _ => unreachable!(),
+    };
+    // what that decoder makes of the bytes (the decoders themselves are C14's and C07's business)
+    let text = MVal::TStr(content.as_bytes().to_vec());
+    let decode = |prog: &str| -> Result<Vec<MVal>, ()> {
+        match jq::eval(prog, &[], text.to_val(), 100) {
+            Ok(outs) if outs.iter().all(|o| matches!(o, Out::Val(_))) => Ok(outs.iter().filter_map(|o| o.val().map(MVal::from_val)).collect()),
+            _ => Err(()),
+        }
+    };
+    let values: Result<Vec<MVal>, ()> = match format {
+        "json" => jaq_json::read::parse_many(content.as_bytes()).collect::<Result<Vec<Val>, _>>().map(|v| v.iter().map(MVal::from_val).collect()).map_err(|_| ()),
+        "yaml" => decode("fromyaml"),
+        "csv" => decode("fromcsv"),
+        "tsv" => decode("fromtsv"),
+        // lines without their terminator; a last line without terminator counts
+        "raw" if slurp => Ok(vec![text.clone()]),
+        "raw" => Ok(content.split_inclusive('\n').map(|l| MVal::TStr(l.strip_suffix('\n').unwrap_or(l).as_bytes().to_vec())).collect()),
+        // (with --slurp the NUL-separated records are collected into an array, unlike the lines of --raw-input)
+        _ => Ok(content.split_inclusive('\u{0}').map(|l| MVal::TStr(l.strip_suffix('\u{0}').unwrap_or(l).as_bytes().to_vec())).collect()),
+    };
+    let dir = root.join(format!("in-{i}"));
+    let _ = std::fs::create_dir_all(&dir);
+    let name = format!("input.{ext}");
+    let _ = std::fs::write(dir.join(&name), content);
+    let mut args: Vec<String> = vec!["-c".into()];
+    args.extend(opt.iter().map(|s| s.to_string()));
+    if slurp {
+        args.push("-s".into());
+    }
+    args.push(".".into());
+    if !stdin {
+        args.push(name.clone());
+    }
+    let case = json!({"command": format!("jaq {}{}", args.iter().map(|a| format!("{a:?}")).collect::<Vec<_>>().join(" "), if stdin { " < input" } else { "" }), "content": content, "expected_decoder": format});
+    vcore::runner::note_case(|| case.to_string());
+    let out = Cmd::jaq().args(args.iter().map(|s| s.as_str())).cwd(&dir).stdin(if stdin { content.as_bytes().to_vec() } else { Vec::new() }).run();
+    let _ = std::fs::remove_dir_all(&dir);
+    let out = out.map_err(|e| CaseFail::new("harness-spawn", e.to_string(), case.clone()))?;
+    match values {
+        // the decoder rejects the bytes: so must the command line (exit 5 or 2), having printed nothing that is not a value of a prefix
+        Err(()) => {
+            if out.status == 0 {
+                return Err(CaseFail::new("cli-input-decoder", format!("the {format} decoder rejects this input, but jaq exits 0 with {:?}", out.out_str().chars().take(200).collect::<String>()), case));
+            }
+            Ok(CaseOk::new(true, i).class("input-rejected-by-the-selected-decoder"))
+        }
+        Ok(vals) => {
+            let vals: Vec<MVal> = if slurp && format != "raw" { vec![MVal::Arr(vals)] } else { vals };
+            let want: Vec<u8> = vals.iter().flat_map(|v| OutOpts { compact: true, ..Default::default() }.render(v)).collect();
+            if out.status != 0 || out.stdout != want {
+                return Err(CaseFail::new("cli-input-decoder", format!("expected the input to be read as {format}: {:?}; jaq printed {:?} (exit {}, {})", String::from_utf8_lossy(&want), out.out_str().chars().take(300).collect::<String>(), out.status, out.err_str().chars().take(200).collect::<String>()), case));
+            }
+            let mut ok = CaseOk::new(true, i).class(if opt.is_empty() { "decoder-from-extension-or-default" } else { "decoder-from-option" });
+            if !opt.is_empty() && matches!(ext, "json" | "yaml" | "csv" | "tsv") && ext != format {
+                ok = ok.class("option-and-extension-name-different-formats");
+            }
+            if sample {
+                ok = ok.desc(Some(case));
+            }
+            Ok(ok)
+        }
+    }
 }
 
 // ---------------------------------------------------------------- interactive scenarios: when are outputs written?
@@ -494,17 +618,23 @@ fn conversation(i: usize) -> CaseResult {
 
 pub fn run(mut rep: Report) -> ! {
     rep.set_rule(
-        "command lines generated from: 38 filters built around input accounting (input, inputs, first(inputs), folds over inputs), errors and halts after k outputs, halt codes, halt_error, variables ($a, $b, $ARGS.named, $ENV), input_filename; 1-3 input files or standard input with 0-4 values each, a parse error after the k-th value, a missing file; -n, -s, -e; eight output modes (pretty, -c, -rc, -jc, --raw-output0, --tab, --indent n, -cS); clustered short options vs long options, options before vs after the filter, `--` before the files. \
-         The model computes, from the outputs the library yields for the same filter with a shared per-file input queue, the exact stdout (bytes for compact/raw modes, re-read values for pretty modes), the exit status (0; -e: 1/4; 2 missing file; 5 run-time and input-parse errors; halt codes modulo 256) and whether stderr must be non-empty. \
-         Interactive scenarios: stdout and stderr merged into one pipe must show outputs and messages in computation order; conversations over pipes in which each output has to arrive before the next input is sent. \
+        "command lines generated from: 38 filters built around input accounting (input, inputs, first(inputs), folds over inputs), errors and halts after k outputs, halt codes, halt_error, variables ($a, $b, $ARGS.named, $ENV), input_filename; 1-3 input files or standard input with 0-4 values each, a parse error after the k-th value, a missing file; -n, -s, -e; any subset of the output options -c, -r, -j, --raw-output0, --tab, --indent n, -S (except -r with --raw-output0); clustered short options vs long options, options before vs after the filter, `--` before the files. \
+         The model computes, from the outputs the library yields for the same filter with a shared per-file input queue, the exact stdout bytes (each output rendered by the library's printer with the layout that the option subset asks for, raw strings and terminators by the documented rules), the exit status (0; -e: 1/4; 2 missing file; 5 run-time and input-parse errors; halt codes modulo 256) and whether stderr must be non-empty. \
+         Input decoder selection: 6 file extensions x 8 input-format option spellings (none, -R, --raw-input, --raw-input0, --from json/raw/yaml/csv) x 7 contents x -s x file/stdin: the input must be read by the decoder the option names, else the one the extension names, else JSON (library decoders give the expected values). Interactive scenarios: stdout and stderr merged into one pipe must show outputs and messages in computation order; conversations over pipes in which each output has to arrive before the next input is sent. \
          non-trivial = at least two interacting options, or a filter that consumes inputs / ends early, or an input truncated after at least one value; distinct by (command line, file contents)",
     );
-    rep.assume("the output values themselves come from the library run of the same filter (C01 decides those); how a value is pretty-printed is C07's business - here pretty outputs are re-read and compared as values");
+    rep.assume("the output values themselves come from the library run of the same filter (C01 decides those); how a value is printed in a given layout is C07's business - here the library's printer renders the expected bytes");
     rep.assume("conversations use a 5 s limit per expected line; jaq answers within milliseconds when it flushes after every output");
     let scratch = Scratch::new("c17");
     let root = scratch.path.clone();
     let n = rep.n(4_000, 400_000);
     rep.random("command-lines", n, 64, move |src| cli_case(src, &root));
+    {
+        let r = scratch.path.clone();
+        let total = (IN_EXTS.len() * IN_OPTS.len() * IN_CONTENTS.len() * 4) as u64;
+        let stride = if rep.quick() { 3 } else { 1 };
+        rep.indexed("input-decoder-selection", total, stride, !rep.quick(), move |i, s| input_format_case(i, s, &r));
+    }
     rep.fixed("merged-output-order", 4, merged_order);
     rep.fixed("conversations", 6, conversation);
     drop(scratch);
